@@ -274,6 +274,29 @@ func reflectOrigins(v ssa.Value) []ssa.Value {
 				visit(e, depth+1)
 			}
 			return
+		case *ssa.Field:
+			// a field of a record a private helper returned (or of a local record): what was put there
+			if leaves := fieldLeavesOfValue(t.X, t.Field, t.Type(), t.Parent(), 0); len(leaves) > 0 {
+				n := 0
+				for _, l := range leaves {
+					if _, isConst := l.(*ssa.Const); isConst {
+						continue // the zero value of a field that is assigned later
+					}
+					n++
+					visit(l, depth+1)
+				}
+				if n > 0 {
+					return
+				}
+			}
+		case *ssa.Parameter:
+			// a parameter of a private helper the walk entered through a returned record: the argument bound to it
+			if t.Parent() != v.Parent() && v.Parent() != nil {
+				if a := an.Actual(t); a != nil {
+					visit(a, depth+1)
+					return
+				}
+			}
 		case *ssa.Call:
 			if an.IsCallTo(t, rvElem, rvField, rvIndex, "(reflect.Value).Addr", "(reflect.Value).Slice", "(reflect.Value).Slice3", "(reflect.Value).Convert", "reflect.Indirect") {
 				visit(an.CallArgs(t)[0], depth+1)
@@ -296,6 +319,20 @@ func reflectOrigins(v ssa.Value) []ssa.Value {
 				case *ssa.FieldAddr:
 					// field of a local struct variable: everything stored into that field
 					if al, ok := a.X.(*ssa.Alloc); ok {
+						// (also through a record a private helper returned and that was assigned to the local whole)
+						if leaves := fieldLeavesOfLocal(al, a.Field, t.Type(), 0); len(leaves) > 0 {
+							n := 0
+							for _, l := range leaves {
+								if _, isConst := l.(*ssa.Const); isConst {
+									continue
+								}
+								n++
+								visit(l, depth+1)
+							}
+							if n > 0 {
+								return
+							}
+						}
 						if vals := localFieldStores(al, a.Field, map[*ssa.Alloc]bool{}); len(vals) > 0 {
 							for _, sv := range vals {
 								visit(sv, depth+1)
@@ -1017,6 +1054,9 @@ func c09EveryListedPatchLoaded(r *an.Run) {
 			if an.StaticCallee(c) == lr {
 				viaReader = c
 			}
+		}
+		if viaReader == nil {
+			viaReader = callThroughWrapper(lf, lr)
 		}
 		_, appendAt, _ := appendsToSelf(lr, "l.progs")
 		for _, pr := range []struct {
@@ -2147,9 +2187,9 @@ func everyParsedFileReachesApply(r *an.Run, m *runModel, rule string) {
 	// failure edges of every (…, error) call between the start of the iteration and Apply
 	removed = append(removed, errorFailEdges(f)...)
 	// the skip-generated arm: the true edge of a branch on the generated-code predicate
-	pred := r.P.Func(mainP, "checkGeneratedCode")
+	gate, _, _ := generatedGate(r, m)
 	for _, c := range an.Calls(f) {
-		if pred == nil || an.StaticCallee(c) != pred {
+		if gate == nil || c != ssa.CallInstruction(gate) {
 			continue
 		}
 		if v, ok := c.(*ssa.Call); ok {
@@ -2717,4 +2757,58 @@ func creatingCalls(v ssa.Value) []*ssa.Call {
 	}
 	visit(v, 0)
 	return out
+}
+
+// callThroughWrapper finds in f a call `w(..., g, ...)` to a module function w
+// that calls its function-typed parameter on every path that returns without
+// an error (open a file, hand it to the callback, close it), where g is a
+// function literal or method value that in turn always calls target before it
+// returns without an error. It returns that call of f, or nil.
+func callThroughWrapper(f, target *ssa.Function) ssa.Instruction {
+	for _, c := range an.Calls(f) {
+		w := an.StaticCallee(c)
+		if w == nil || !an.InModule(w) || w.Blocks == nil {
+			continue
+		}
+		for i, a := range c.Common().Args {
+			if i >= len(w.Params) {
+				continue
+			}
+			if _, isFunc := w.Params[i].Type().Underlying().(*types.Signature); !isFunc {
+				continue
+			}
+			var g *ssa.Function
+			switch v := a.(type) {
+			case *ssa.MakeClosure:
+				g, _ = v.Fn.(*ssa.Function)
+			case *ssa.Function:
+				g = v
+			}
+			if g == nil || g.Blocks == nil {
+				continue
+			}
+			// the wrapper invokes its parameter before every successful return
+			var inv ssa.Instruction
+			for _, wc := range an.Calls(w) {
+				if wc.Common().Value == ssa.Value(w.Params[i]) {
+					inv = wc
+				}
+			}
+			if inv == nil || successWithout(w, inv) != nil {
+				continue
+			}
+			// the callback reaches the target before every successful return
+			var act ssa.Instruction
+			for _, gc := range an.Calls(g) {
+				if an.StaticCallee(gc) == target {
+					act = gc
+				}
+			}
+			if act == nil || successWithout(g, act) != nil {
+				continue
+			}
+			return c
+		}
+	}
+	return nil
 }
